@@ -539,7 +539,10 @@ def classify(v, case):
         tr = det.get("trace", "")
         if "varLib/merger.py" in tr and "GPOS" in tr:
             return "merge_path_fails_on_structurally_different_master_gpos"
-        if "varLib/merger.py" in tr and "GDEF.table.MarkGlyphSetsDef" in tr:
+        if "varLib/merger.py" in tr and ("GDEF.table.MarkGlyphSetsDef" in tr or "GDEF.table.Version" in tr
+                                         or ("_merge_OTL" in tr and "Base master not found" in tr)):
+            # (or, when the DEFAULT master is the one that lacks the pair, from the merger's
+            # sub-model: 'Base master not found')
             # the same structural difference seen from GDEF: with glyph categories the kern
             # writer puts pairs that involve marks into lookups with a mark filtering set; a
             # master whose only such pair has value 0 (dropped) or lacks the key has one
